@@ -4,6 +4,8 @@ import (
 	"fmt"
 	"go/ast"
 	"go/token"
+	"math"
+	"runtime"
 	"sort"
 	"strings"
 	"unicode"
@@ -336,6 +338,32 @@ func (c *Ctx) c11Round4(sb *strings.Builder) {
 		fmt.Fprintf(sb, "  (%d, %d, %d, %d)%s\n", cr.Lo, cr.Hi, cr.Delta[unicode.UpperCase], cr.Delta[unicode.LowerCase], sep)
 	}
 	fmt.Fprintf(sb, "def maxRune : Nat := %d\ndef upperLower : Int := %d\n", unicode.MaxRune, unicode.UpperLower)
+
+	// 1b. (round 4b) the platform math.Log runs on, as seen by the toolchain this extractor (and the harness) is built with:
+	//     GOARCH, the constants math.Log10 / math.Log2 multiply with, and probe values of math.Log / Log10 / Log2 / Pow
+	//     (the first probe is a subnormal: -709.08… exactly when the amd64 assembly routine is in use)
+	fmt.Fprintf(sb, "\n/-- the platform of `math.Log` (amd64: `log_amd64.s`) and probe values computed by the toolchain. -/\n")
+	fmt.Fprintf(sb, "def goarch : String := %q\n", runtime.GOARCH)
+	fmt.Fprintf(sb, "def invLn10Bits : Nat := %d\ndef invLn2Bits : Nat := %d\ndef hSqrt2Bits : Nat := %d\n",
+		math.Float64bits(1/math.Ln10), math.Float64bits(1/math.Ln2), math.Float64bits(math.Sqrt2/2))
+	probe := func(name string, f func(float64) float64, args ...uint64) {
+		fmt.Fprintf(sb, "def %s : List (Nat × Nat) := [", name)
+		for i, a := range args {
+			if i > 0 {
+				sb.WriteString(", ")
+			}
+			fmt.Fprintf(sb, "(%d, %d)", a, math.Float64bits(f(math.Float64frombits(a))))
+		}
+		sb.WriteString("]\n")
+	}
+	logArgs := []uint64{1, 1 << 51, 1<<52 - 1, 1 << 52, math.Float64bits(0.5), math.Float64bits(math.Sqrt2 / 2), math.Float64bits(math.Sqrt2/2) + 1,
+		math.Float64bits(1), math.Float64bits(2), math.Float64bits(10), math.Float64bits(1e15), math.Float64bits(0.1), math.Float64bits(1e-300),
+		math.Float64bits(math.MaxFloat64), math.Float64bits(3)}
+	probe("logProbes", math.Log, logArgs...)
+	probe("log10Probes", math.Log10, logArgs...)
+	probe("log2Probes", math.Log2, logArgs...)
+	probe("pow3Probes", func(x float64) float64 { return math.Pow(3, x) }, math.Float64bits(2), math.Float64bits(33), math.Float64bits(34),
+		math.Float64bits(-40), math.Float64bits(646), math.Float64bits(647), math.Float64bits(-678), math.Float64bits(-679), math.Float64bits(-700))
 
 	// 2. integer constants
 	intConst := func(lean, rel, name string) {
